@@ -103,7 +103,7 @@ def setup(tier, seed):
     _S.clear()
     _S['space'] = build_space(tier, seed)
     _S['cross'] = cross_tuples(tier)
-    _S['names'] = J.name_schemes(tier, seed)
+    _S['names'] = J.name_schemes(tier, seed) + J.keyform_schemes(tier, seed)
     _S['namedata'] = J.name_data(tier, seed)
 
 
@@ -257,15 +257,16 @@ def run_item(item, acc):
                                   r[1], r[2], r[3])
         return
     if kind == 'names':
-        lv, rv = _S['namedata']
         for sc in _S['names'][lo:hi]:
+            lv, rv = sc.get('data') or _S['namedata']
             for lvec in lv:
                 left = J.tagged_table(sc['lhdr'], sc['lk'], lvec, 'L')
                 for rvec in rv:
                     right = J.tagged_table(sc['rhdr'], sc['rk'], rvec, 'R')
                     for kw in sc['kw']:
-                        _do_pair(acc, 'names:' + sc['form'], left, right, kw, J.MERGE_OPS, sc['kw'])
+                        _do_pair(acc, sc['form'] if ':' in sc['form'] else 'names:' + sc['form'], left, right, kw, J.MERGE_OPS, sc['kw'])
         if lo == 0:
+            lv, rv = _S['namedata']
             sc = _S['names'][min(len(_S['names']) - 1, 40)]
             left = J.tagged_table(sc['lhdr'], sc['lk'], lv[-1], 'L')
             right = J.tagged_table(sc['rhdr'], sc['rk'], rv[-1], 'R')
